@@ -10,12 +10,15 @@ CLAIM = {
             "after B -> A the original octets are back. (2) upipe_h26xf_stream_get removes exactly the emulation prevention octets "
             "(every 0x03 after two zero octets) from any stream of 7-8 symbolic octets cut into two segments. (3) "
             "upipe_h26xf_stream_ue / _se return what an independent reference decoder reads from any stream of symbolic octets "
-            "(code words within the stated bound).",
+            "(short code words up to the stated bound with fully symbolic octets; long code words of 24..31 leading zero bits -- the "
+            "reader's second path, values 2^24-1 .. 2^32-2 -- with the escaped prefix as a discrete selector and symbolic suffix octets, "
+            "in which further emulation prevention octets may fall).",
     "note": "The H.264 / H.265 framers themselves (cut independence, every access unit output, no read outside buffers on corrupt "
             "input) are NOT covered: upipe_h264_framer.c / upipe_h265_framer.c include <bitstream/mpeg/h264.h> / <bitstream/itu/h265.h>, "
             "which are absent from this image. Trusted: CBMC 6.11, the reference serialiser / decoder in the harness, a vsnprintf model "
-            "for the formatted attribute names, shims as for C04. Exp-Golomb bound: <= 6 leading zeros (symbolic octets make the bit "
-            "reader expensive: 2-4 GB per query).",
+            "for the formatted attribute names, shims as for C04. Exp-Golomb bound: <= 6 leading zeros with fully symbolic octets (symbolic "
+            "prefixes make the bit reader expensive: 2-4 GB per query, out of memory at 23 GB for 24 leading zeros), 24..31 leading zeros "
+            "with a concrete prefix.",
     "technique": "CBMC bounded model checking of real C against a reference serialiser / decoder; encapsulation pairs and sizes "
                  "enumerated, payload and stream octets symbolic",
 }
@@ -51,16 +54,27 @@ def build(tier):
                         timeout=900 if quick else 3000, stretch=not quick and nb == 4,
                         sample={"stream": "%d symbolic octets + padding, cut at %d" % (nb, seg), "code word": "up to %d leading zero bits" % lz,
                                 "reference": "strip emulation prevention octets, count leading zeros, read suffix"} if not signed else None))
+    # long code words (24..31 leading zero bits: values 2^24-1 .. 2^32-2, the second decoding path of the reader): the prefix --
+    # three zero octets, written 00 00 03 00 by an encoder -- and the octet B4 that ends it are discrete selectors, the
+    # remaining 4-5 octets (where further escapes may fall) are symbolic
+    longs = [(31, 1, False), (31, 1, True), (30, 2, False), (30, 3, False), (24, 0x80, False), (24, 0xff, False), (27, 0x15, True)]
+    if not quick:
+        longs = [(k, b4, False) for k in range(24, 32) for b4 in range(1 << (31 - k), 2 << (31 - k))] + [(31, 1, True), (24, 0xd5, True), (28, 0x0a, True)]
+    for k, b4, signed in longs:
+        qs.append(q("golomb_%s_long%d_b%02x" % ("se" if signed else "ue", k, b4),
+                    ["MODE_GOLOMB", "NB=10", "SEG0=%d" % (3 + (k + b4) % 5), "MAXLZ=31", "LONGCODE=%d" % k, "B4=%d" % b4] + (["SIGNED"] if signed else []), 36,
+                    timeout=900, sample={"stream": "00 00 03 00 %02x + 5 symbolic octets + padding" % b4, "code word": "%d leading zero bits" % k,
+                                         "reference": "strip emulation prevention octets, count leading zeros, read suffix"} if (k, b4) == (31, 1) and not signed else None))
     for nb, seg in ([(7, 3)] if quick else [(7, 3), (7, 1), (8, 4)]):
         qs.append(q("epb_nb%d_seg%d" % (nb, seg), ["MODE_EPB", "NB=%d" % nb, "SEG0=%d" % seg], nb + 6, timeout=900,
                     sample={"stream": "%d symbolic octets cut at %d" % (nb, seg), "check": "stream_get == stream with every 0x03 after two zero octets removed"}))
-    meta = {"bounds": {"exp_golomb": "code words with <= 4 (quick) / 6 leading zero bits, i.e. values up to 30 / 126", "nal_units_per_frame": "1-3",
+    meta = {"bounds": {"exp_golomb": "code words with <= 4 (quick) / 6 leading zero bits, i.e. values up to 30 / 126, and 24..31 leading zero bits with concrete prefix", "nal_units_per_frame": "1-3",
                        "nal_payload_octets": "1-2", "stream_octets": "3-8, two segments"},
             "exhaustive": False,
             "rule": "one query per (encapsulation pair, NAL sizes) / (stream length, cut, code word bound); payload and stream octets symbolic",
             "assumptions": ["attribute names are formatted by a 15-line vsnprintf model (one %lu argument < 100)",
                             "Annex B frames use 4-octet start codes (the form for which the property promises an exact round trip)",
                             "shims uatomic_seq.h / upool_depth0.h, static managers, fprestrict"],
-            "outside": ["the H.264 / H.265 framers (they need the absent bitstream headers)", "code values above 126 (up to 2^32-2)",
+            "outside": ["the H.264 / H.265 framers (they need the absent bitstream headers)", "code words of 7..23 leading zero bits",
                         "NAL sizes overflowing a length prefix", "more than 3 NAL units"]}
     return qs, meta
